@@ -251,6 +251,25 @@ func instrumentFile(p *packages.Package, f *ast.File, fe *fileEdits, rel string)
 		fe.add(off(body.Lbrace)+1, 0, fmt.Sprintf(" simrt.Yield(%d);", id))
 	}
 
+	// statement-level scheduling points: before every statement of a block except the first (the block's own
+	// entry already yields) - so that two statements of one function can be separated by another task
+	stmtYields := func(list []ast.Stmt) {
+		if len(funcStack) == 0 {
+			return
+		}
+		for i, st := range list {
+			if i == 0 {
+				continue
+			}
+			switch st.(type) {
+			case *ast.EmptyStmt, *ast.CaseClause, *ast.CommClause:
+				continue
+			}
+			id := newSite("stmt", st.Pos(), curFunc(), "")
+			fe.add(off(st.Pos()), 0, fmt.Sprintf("simrt.Yield(%d); ", id))
+		}
+	}
+
 	isSyncType := func(sel *ast.SelectorExpr) (string, bool) {
 		obj := info.Uses[sel.Sel]
 		tn, ok := obj.(*types.TypeName)
@@ -286,6 +305,12 @@ func instrumentFile(p *packages.Package, f *ast.File, fe *fileEdits, rel string)
 			ast.Inspect(x.Body, walk)
 			funcStack = funcStack[:len(funcStack)-1]
 			return false
+		case *ast.BlockStmt:
+			stmtYields(x.List)
+		case *ast.CaseClause:
+			stmtYields(x.Body)
+		case *ast.CommClause:
+			stmtYields(x.Body)
 		case *ast.ForStmt:
 			yieldAt(x.Body, "loop")
 		case *ast.RangeStmt:
